@@ -102,6 +102,14 @@ class Verifier:
             self.h0[key] = z3.Const('H0_' + keyname(key), s)
             if key[0] == 'alloc':
                 self.global_hyps.append(self.h0[key] >= 0)
+            if key[0] in ('f', 'cell', 'el'):
+                from .symex import heap_typing_fact
+                try:
+                    f_ = heap_typing_fact(self, Heap(self), key, self.h0[key])
+                except Exception:
+                    f_ = None
+                if f_ is not None:
+                    self.global_hyps.append(f_)
             if key[0] == 'g':
                 c = getattr(self.world.prog, 'const_globals', {}).get((key[1], key[2]))
                 if c is not None:
